@@ -1,10 +1,236 @@
 import SV.Driver.Util
-/- svdriver_c01: line protocol for the C01 model (stub until the model is built). -/
-namespace SV.Driver.C01
+import SV.Model.Verify
+/-
+svdriver_c01: line protocol for the C01 model (`SV/Model/Verify.lean`).
 
-def step (s : Unit) : List String → Unit × String
-  | _ => (s, "bad-op")
+Instance: `β = δ = Nat`, `H = id`.  TOC bytes are `1` (so the actual TOC digest is `1`); the digest
+recorded for chunk `c` is `c + 10` (none for the chunks listed in `nodig=`).  The harness classifies
+what the real decoders yield for a chunk under the current blob view, and every presented digest:
+  chunk reply   g = bytes matching the recorded digest (`c+10`), b = other bytes (`0`), f = read error
+  digest        good = the digest of the TOC JSON actually used (`1`), wrong = anything else (`2`)
+
+  new <disable 0|1> <allow 0|1> files=<f:c,c;f:c|-> nodig=<c,c|->          -> ok
+reader level (VerifiableReader / reader, package fs/reader):
+  r.prefetch <c> <g|b|f>                        -> ok | err             readAndCache of one chunk
+  r.cache <c:st,...|-> cached=<c,...|->         -> ok | err [implausible:<c>]   Cache(); `cached` = observed
+  r.race <good|wrong> <c:st,...|-> cached=<..>  -> verify=<r> cache=<r> [implausible:<c>]
+                                                   Cache() racing with VerifyTOC; linearisation rebuilt
+                                                   from the observed cache contents
+  r.verify <good|wrong>                         -> ok | err
+  r.skip                                        -> ok
+  r.read <step;step;...|->                      -> ok clean | ok dirty | err     step = c:st[/c:st,c:st]
+  r.pass <f> <mem|file> <step;...|->            -> ok | err
+  r.readfd <f>                                  -> ok clean | ok dirty | err
+layer level (layer / filesystem.Mount / store, packages fs/layer, fs):
+  l.verify <good|wrong>   l.skip   l.mount <none|bad|good|wrong> <skip 0|1>   l.store <good|wrong>
+  l.prefetch <c> <st>   l.read <steps>   l.pass <f> <mem|file> <steps>   l.readfd <f>   l.evict
+-/
+namespace SV.Driver.C01
+open SV.Driver SV.Verify
+
+abbrev S := St Nat Nat
+
+def goodBytes (c : Nat) : Nat := c + 10
+
+structure DSt where
+  files : List (Nat × List Nat) := []
+  nodig : List Nat := []
+  s : S := init (fun _ => ⟨fun _ => [], fun _ => none⟩) {} 1
+
+def mkToc (files : List (Nat × List Nat)) (nodig : List Nat) : Toc Nat :=
+  { chunksOf := fun f => match files.find? (·.1 == f) with
+      | some (_, cs) => cs
+      | none => []
+    dig := fun c => if nodig.contains c then none else some (goodBytes c) }
+
+def parseList? (s : String) (f : String → Option α) : Option (List α) :=
+  if s = "-" then some [] else (s.splitOn ",").mapM f
+
+def parseFile? (s : String) : Option (Nat × List Nat) :=
+  match s.splitOn ":" with
+  | [f, cs] => do
+    let f ← parseNat? f
+    let cs ← if cs = "" then some [] else (cs.splitOn ",").mapM parseNat?
+    some (f, cs)
+  | _ => none
+
+def parseFiles? (s : String) : Option (List (Nat × List Nat)) :=
+  if s = "-" then some [] else (s.splitOn ";").mapM parseFile?
+
+def parseReply? (c : Nat) : String → Option (Option Nat)
+  | "g" => some (some (goodBytes c))
+  | "b" => some (some 0)
+  | "f" => some none
+  | _ => none
+
+def parseItem? (s : String) : Option (Nat × Option Nat) :=
+  match s.splitOn ":" with
+  | [c, st] => do
+    let c ← parseNat? c
+    let r ← parseReply? c st
+    some (c, r)
+  | _ => none
+
+def parseStep? (s : String) : Option (Step Nat) :=
+  match s.splitOn "/" with
+  | [main] => do
+    let (c, r) ← parseItem? main
+    some { c := c, reply := r, pre := [] }
+  | [main, pre] => do
+    let (c, r) ← parseItem? main
+    let pre ← (pre.splitOn ",").mapM parseItem?
+    some { c := c, reply := r, pre := pre }
+  | _ => none
+
+def parseSteps? (s : String) : Option (List (Step Nat)) :=
+  if s = "-" then some [] else (s.splitOn ";").mapM parseStep?
+
+def parseDigest? : String → Option Nat
+  | "good" => some 1
+  | "wrong" => some 2
+  | _ => none
+
+def stripPrefix? (p s : String) : Option String :=
+  if s.startsWith p then some (s.drop p.length).toString else none
+
+def showRes (t : Toc Nat) : Res Nat → String
+  | .ok => "ok"
+  | .err => "err"
+  | .data ps => if ps.all (fun p => t.dig p.1 == some p.2) then "ok clean" else "ok dirty"
+
+def okErr : Res Nat → String
+  | .err => "err"
+  | _ => "ok"
+
+/-- `Cache()` over `items`, the observed set `cached` resolving what the errgroup cancelled. -/
+def cacheItems (s : S) (items : List (Nat × Option Nat)) (cached : List Nat) :
+    S × Bool × Bool × Option Nat :=
+  items.foldl (fun (acc : S × Bool × Bool × Option Nat) (it : Nat × Option Nat) =>
+    let (s, anyErr, skipped, bad) := acc
+    let (c, reply) := it
+    match cget s.cache (.chunk c) with
+    | some _ => if cached.contains c then (s, anyErr, skipped, bad) else (s, anyErr, skipped, bad.or (some c))
+    | none =>
+      match prefetch id s c reply with
+      | (s', .err) => if cached.contains c then (s', anyErr, skipped, bad.or (some c)) else (s', true, skipped, bad)
+      | (s', _) => if cached.contains c then (s', anyErr, skipped, bad) else (s, anyErr, true, bad))
+    (s, false, false, none)
+
+def plaus (anyErr skipped : Bool) (bad : Option Nat) : String :=
+  match bad with
+  | some c => s!" implausible:{c}"
+  | none => if skipped && !anyErr then " implausible:cancelled-without-error" else ""
+
+def advOf (steps : List (Step Nat)) (c : Nat) : Option Nat :=
+  match steps.find? (·.c == c) with
+  | some st => st.reply
+  | none => none
+
+def preOf (steps : List (Step Nat)) (c : Nat) : List (Nat × Option Nat) :=
+  match steps.find? (·.c == c) with
+  | some st => st.pre
+  | none => []
+
+def setS (d : DSt) (r : S × Res Nat) (f : Res Nat → String) : DSt × String := ({ d with s := r.1 }, f r.2)
+
+def step (d : DSt) : List String → DSt × String
+  | ["new", dis, allow, files, nodig] =>
+    match stripPrefix? "files=" files, stripPrefix? "nodig=" nodig with
+    | some fs, some nd =>
+      match parseFiles? fs, parseList? nd parseNat?, dis, allow with
+      | some fs, some nd, dis, allow =>
+        if (dis = "0" ∨ dis = "1") ∧ (allow = "0" ∨ allow = "1") then
+          let cfg : Cfg := { disableVerification := dis = "1", allowNoVerification := allow = "1" }
+          let toc := mkToc fs nd
+          ({ files := fs, nodig := nd, s := init (fun _ => toc) cfg 1 }, "ok")
+        else (d, "bad-op")
+      | _, _, _, _ => (d, "bad-op")
+    | _, _ => (d, "bad-op")
+  | ["r.prefetch", c, st] | ["l.prefetch", c, st] =>
+    match parseNat? c with
+    | some c =>
+      match parseReply? c st with
+      | some r => setS d (prefetch id d.s c r) okErr
+      | none => (d, "bad-op")
+    | none => (d, "bad-op")
+  | ["r.cache", items, cached] =>
+    match parseList? items parseItem?, (stripPrefix? "cached=" cached).bind (parseList? · parseNat?) with
+    | some items, some cached =>
+      let (s', anyErr, skipped, bad) := cacheItems d.s items cached
+      ({ d with s := s' }, (if anyErr then "err" else "ok") ++ plaus anyErr skipped bad)
+    | _, _ => (d, "bad-op")
+  | ["r.race", dg, items, cached] =>
+    match parseDigest? dg, parseList? items parseItem?,
+          (stripPrefix? "cached=" cached).bind (parseList? · parseNat?) with
+    | some D, some items, some cached =>
+      -- critical sections before the decision: every chunk that ended up cached
+      let before := items.filter fun it => cached.contains it.1
+      let after := items.filter fun it => !cached.contains it.1
+      let (s1, e1, k1, b1) := cacheItems d.s before cached
+      let (s2, vr) := verifyTOC id s1 D
+      let (s3, e2, k2, b2) := cacheItems s2 after cached
+      let anyErr := e1 || e2
+      ({ d with s := s3 },
+        s!"verify={okErr vr} cache={if anyErr then "err" else "ok"}" ++ plaus anyErr (k1 || k2) (b1.or b2))
+    | _, _, _ => (d, "bad-op")
+  | ["r.verify", dg] =>
+    match parseDigest? dg with
+    | some D => setS d (verifyTOC id d.s D) okErr
+    | none => (d, "bad-op")
+  | ["r.skip"] => (d, "ok")
+  | ["r.read", steps] =>
+    match parseSteps? steps with
+    | some steps => setS d (rawRead id d.s steps) (showRes d.s.toc)
+    | none => (d, "bad-op")
+  | ["r.pass", f, kind, steps] =>
+    match parseNat? f, parseSteps? steps with
+    | some f, some steps =>
+      if kind = "mem" ∨ kind = "file" then
+        setS d (rawPassthrough id d.s f (advOf steps) (preOf steps) (kind = "file")) okErr
+      else (d, "bad-op")
+    | _, _ => (d, "bad-op")
+  | ["r.readfd", f] =>
+    match parseNat? f with
+    | some f => setS d (rawReadFd d.s f) (showRes d.s.toc)
+    | none => (d, "bad-op")
+  | ["l.verify", dg] =>
+    match parseDigest? dg with
+    | some D => setS d (layerVerify id d.s D) okErr
+    | none => (d, "bad-op")
+  | ["l.skip"] => ({ d with s := layerSkip d.s }, "ok")
+  | ["l.mount", toc, skip] =>
+    let t : Option (Option (Option Nat)) := match toc with
+      | "none" => some none
+      | "bad" => some (some none)
+      | "good" => some (some (some 1))
+      | "wrong" => some (some (some 2))
+      | _ => none
+    match t with
+    | some t =>
+      if skip = "0" ∨ skip = "1" then setS d (mount id d.s ⟨t, skip = "1"⟩) okErr else (d, "bad-op")
+    | none => (d, "bad-op")
+  | ["l.store", dg] =>
+    match parseDigest? dg with
+    | some D => setS d (storeLookup id d.s D) okErr
+    | none => (d, "bad-op")
+  | ["l.read", steps] =>
+    match parseSteps? steps with
+    | some steps => setS d (read id d.s steps) (showRes d.s.toc)
+    | none => (d, "bad-op")
+  | ["l.pass", f, kind, steps] =>
+    match parseNat? f, parseSteps? steps with
+    | some f, some steps =>
+      if kind = "mem" ∨ kind = "file" then
+        setS d (passthrough id d.s f (advOf steps) (preOf steps) (kind = "file")) okErr
+      else (d, "bad-op")
+    | _, _ => (d, "bad-op")
+  | ["l.readfd", f] =>
+    match parseNat? f with
+    | some f => setS d (readFd d.s f) (showRes d.s.toc)
+    | none => (d, "bad-op")
+  | ["l.evict"] => ({ d with s := evict (fun _ => mkToc d.files d.nodig) d.s 1 }, "ok")
+  | _ => (d, "bad-op")
 
 end SV.Driver.C01
 
-def main : IO Unit := SV.Driver.loop SV.Driver.C01.step ()
+def main : IO Unit := SV.Driver.loop SV.Driver.C01.step {}
